@@ -166,6 +166,14 @@ func HarnessC03Stream() {
 	verifAssert(string(got) == string(want), "C03.everything-delivered-in-order")
 	checkPlainLines(op.lines)
 	checkOutputLog(op.lines)
+	// the transcript is complete: everything received from the shell before the stream's own end is logged
+	var logged []byte
+	for i := 0; i < verifLogCount(); i++ {
+		if verifLogMsg(i) == LMShellIO {
+			logged = append(logged, verifLogAttr(i, LKData)...)
+		}
+	}
+	verifAssert(string(logged) == string(r.produced), "C11.output.everything-received-is-logged")
 	if cls == 3 {
 		verifAssert(err != nil && errors.Is(err, errStubRead), "C03.real-error-reported")
 	} else {
